@@ -42,9 +42,9 @@ def run(ctx) -> None:
     eng = prog.cls(ENGINE)
     impl = prog.module(IMPL)
     # two explorations: one user request per tick gap with a scheduler that may let in-flight commands stall (coarse), and two
-    # requests per gap with the exact scheduler of execute_commands (every driven command steps in every tick)
+    # (quick) or three (thorough) requests per gap with the exact scheduler of execute_commands (every driven command steps in every tick)
     ex = Explorers(Explorer(ctx, faults=True, track=("outs", "hw", "err", "cap")),
-                   Explorer(ctx, faults=True, track=("outs", "hw", "err", "cap"), max_pending=2, exact=True))
+                   Explorer(ctx, faults=True, track=("outs", "hw", "err", "cap"), max_pending=3 if ctx.tier == "thorough" else 2, exact=True))
     ex.explore()
     ctx.extra["states"] = len(ex.reach)
     ctx.extra["transitions"] = ex.edges
